@@ -370,6 +370,9 @@ func allocBefore(a, b *ssa.Alloc) bool {
 
 // localByName resolves a source-level local variable name to its current value.
 func (env *Env) localByName(name string) (TV, bool) {
+	if name == "rangeint" {
+		name = "rangeint.iter" // hidden counter of `for i := range n` (the lexer cannot read the dotted SSA name)
+	}
 	var cands []*ssa.Alloc
 	for a := range env.cur.locals {
 		if a.Comment == name {
